@@ -191,6 +191,11 @@ def decisions_vector(spec, dec):
     return vec
 
 
+def pieces_of(row):
+    """A row is one bi-affine piece, or a piecewise row  max_k piece_k <= 0  /  min_k piece_k >= 0."""
+    return row['pieces'] if 'pieces' in row else [row]
+
+
 def evaluate(spec, dec):
     """C03 oracle: worst-case expectations / worst cases of the objective and of every row at the given decisions."""
     L = layout(spec)
@@ -207,11 +212,12 @@ def evaluate(spec, dec):
         sgn = -1.0 if row['sense'] == '>=' else 1.0
         if row.get('E'):
             ad = ad_of(row.get('set'))
-            f = np.zeros(ad['nq'])
+            f = np.full(ad['nq'], -np.inf)
             for s in range(spec['S']):
                 for vi, v in enumerate(ad['Vs'][s]):
-                    c, k = piece_row(spec, L, row, s, v)
-                    f[ad['off'][s] + vi] = sgn * (c @ vec + k)
+                    for pc in pieces_of(row):
+                        c, k = piece_row(spec, L, pc, s, v)
+                        f[ad['off'][s] + vi] = max(f[ad['off'][s] + vi], sgn * (c @ vec + k))
             st, val = worst_expectation(ad, f)
             out['rows'].append({'kind': 'E', 'status': st, 'worst': val})
         else:
@@ -219,9 +225,10 @@ def evaluate(spec, dec):
             mx, mn = -np.inf, np.inf
             for s in range(spec['S']):
                 for v in row_support_points(spec, row, s):
-                    c, k = piece_row(spec, L, row, s, v)
-                    g = c @ vec + k
-                    mx, mn = max(mx, g), min(mn, g)
+                    for pc in pieces_of(row):
+                        c, k = piece_row(spec, L, pc, s, v)
+                        g = c @ vec + k
+                        mx, mn = max(mx, g), min(mn, g)
             out['rows'].append({'kind': 'R', 'max': mx, 'min': mn})
     o = spec['obj']
     sgn = 1.0 if o['kind'] in ('min', 'minsup') else -1.0
@@ -359,20 +366,24 @@ def solve(spec):
             sg = -1.0 if row['sense'] == '>=' else 1.0
 
             def row_pieces(s, v, row=row, sg=sg):
-                c, k = piece_row(spec, L, row, s, v)
-                return [(sg * c, sg * k)]
+                out = []
+                for pc in pieces_of(row):
+                    c, k = piece_row(spec, L, pc, s, v)
+                    out.append((sg * c, sg * k))
+                return out
             add_sup_E(ad, row_pieces, ({}, 0.0))
         else:
             for s in range(spec['S']):
                 for v in row_support_points(spec, row, s):
-                    c, k = piece_row(spec, L, row, s, v)
-                    r = {j: c[j] for j in np.flatnonzero(c)}
-                    if row['sense'] == '<=':
-                        rows_ub.append(r); rhs_ub.append(-k)
-                    elif row['sense'] == '>=':
-                        rows_ub.append({j: -a for j, a in r.items()}); rhs_ub.append(k)
-                    else:
-                        rows_eq.append(r); rhs_eq.append(-k)
+                    for pc in pieces_of(row):
+                        c, k = piece_row(spec, L, pc, s, v)
+                        r = {j: c[j] for j in np.flatnonzero(c)}
+                        if row['sense'] == '<=':
+                            rows_ub.append(r); rhs_ub.append(-k)
+                        elif row['sense'] == '>=':
+                            rows_ub.append({j: -a for j, a in r.items()}); rhs_ub.append(k)
+                        else:
+                            rows_eq.append(r); rhs_eq.append(-k)
 
     def dense(rows):
         M = np.zeros((len(rows), nvar))
